@@ -416,6 +416,16 @@ func runC11(e *Engine, r *Report, tier string) {
 			if n, _, ok := fieldNameOfLoad(a[1]); ok && n == "Shares" {
 				okArg = true
 			}
+			// a local holding the very value that is stored into a delegation's Shares (`rest := d.Shares.Sub(x); d.Shares = rest`)
+			allInstrs(fn, func(i ssa.Instruction) {
+				if st, ok := i.(*ssa.Store); ok {
+					if fa, ok := st.Addr.(*ssa.FieldAddr); ok {
+						if n, stt, _ := fieldName(fa); n == "Shares" && strings.HasSuffix(namedTypeName(stt), "Delegation") && st.Val == stripConv(a[1]) {
+							okArg = true
+						}
+					}
+				}
+			})
 		}
 		r.Check(okArg, "R4", ck, e.InstrPos(at), what+": Stake = validator.TokensFromSharesTruncated(<delegation shares | transferred shares>)", what+": Stake is computed from something that is not the delegation's shares (for an existing delegation the transferred amount is only part of them: its rewards would accrue on the moved shares alone)")
 	}
